@@ -40,6 +40,7 @@ import (
 	"github.com/DistCompiler/pgo/distsys/hashmap"
 	"github.com/DistCompiler/pgo/distsys/resources"
 	"github.com/DistCompiler/pgo/distsys/tla"
+	"go.uber.org/multierr"
 )
 
 type attempt struct {
@@ -54,21 +55,24 @@ type bodyStops struct {
 
 type kase struct {
 	ID        int         `json:"id"`
-	Leaves    []bool      `json:"leaves"`    // extra leaves; true = Close returns an error
-	IncMap    bool        `json:"incmap"`    // configure an IncMap resource
-	HashMap   int         `json:"hashmap"`   // number of elements of a HashMap resource (0 = none)
-	Nested    int         `json:"nested"`    // number of contexts under one Nested resource (0 = none)
-	Plan      []attempt   `json:"plan"`      // attempt i of the run; past the end: done
-	Pre       int         `json:"pre"`       // Stops before Run
-	Race      int         `json:"race"`      // Stops released together with Run
-	Body      []bodyStops `json:"body"`      // Stops while attempt At is blocked
-	RerunAt   int         `json:"rerun_at"`  // second Run while attempt RerunAt is blocked (-1: none)
-	Cleanup   int         `json:"cleanup"`   // Stops during cleanup
-	After     int         `json:"after"`     // Stops after Run returned
-	NoRun     bool        `json:"norun"`     // never call Run
-	PrePanic  bool        `json:"pre_panic"` // a required ref parameter is missing: preRun panics, the deferred cleanup still runs
-	Real      int         `json:"real"`      // >0: a context over a real FailureDetector and local TCP mailbox, Real Stops at once (oracle only)
-	SettleUs  int         `json:"settle_us"` // how long to let released Stops reach their blocking point
+	Leaves    []bool      `json:"leaves"`     // extra leaves; true = Close returns an error
+	IncMap    bool        `json:"incmap"`     // configure an IncMap resource
+	HashMap   int         `json:"hashmap"`    // number of elements of a HashMap resource (0 = none)
+	Nested    int         `json:"nested"`     // number of contexts under one Nested resource (0 = none)
+	Plan      []attempt   `json:"plan"`       // attempt i of the run; past the end: done
+	Pre       int         `json:"pre"`        // Stops before Run
+	Race      int         `json:"race"`       // Stops released together with Run
+	Body      []bodyStops `json:"body"`       // Stops while attempt At is blocked
+	RerunAt   int         `json:"rerun_at"`   // second Run while attempt RerunAt is blocked (-1: none)
+	Cleanup   int         `json:"cleanup"`    // Stops during cleanup
+	After     int         `json:"after"`      // Stops after Run returned
+	NoRun     bool        `json:"norun"`      // never call Run
+	ImFail    []int       `json:"im_fail"`    // IncMap keys whose element's Close returns an error
+	HmFail    []int       `json:"hm_fail"`    // HashMap elements whose Close returns an error
+	NestedEnd []string    `json:"nested_end"` // per nested context: "" runs until stopped | "done" | "assert": ends on its own at once
+	PrePanic  bool        `json:"pre_panic"`  // a required ref parameter is missing: preRun panics, the deferred cleanup still runs
+	Real      int         `json:"real"`       // >0: a context over a real FailureDetector and local TCP mailbox, Real Stops at once (oracle only)
+	SettleUs  int         `json:"settle_us"`  // how long to let released Stops reach their blocking point
 	DeadlineM int         `json:"deadline_ms"`
 }
 
@@ -186,7 +190,7 @@ func (r *inst) Close() error {
 	return nil
 }
 
-func archetype(d *driver, name string, nested bool) distsys.MPCalArchetype {
+func archetype(d *driver, name string, nested bool, endMode string) distsys.MPCalArchetype {
 	loop := name + ".loop"
 	done := name + ".Done"
 	var body func(iface distsys.ArchetypeInterface) error
@@ -196,6 +200,12 @@ func archetype(d *driver, name string, nested bool) distsys.MPCalArchetype {
 			h := iface.RequireArchetypeResource("&" + name + ".nw")
 			if _, err := iface.Read(h, nil); err != nil {
 				return err
+			}
+			switch endMode {
+			case "done":
+				return distsys.ErrDone
+			case "assert":
+				return fmt.Errorf("%w: c17 nested assertion", distsys.ErrAssertionFailed)
 			}
 			time.Sleep(time.Millisecond)
 			return iface.Goto(loop)
@@ -264,7 +274,51 @@ func archetype(d *driver, name string, nested bool) distsys.MPCalArchetype {
 	}
 }
 
+func endOf(l []string, i int) string {
+	if i < len(l) {
+		return l[i]
+	}
+	return ""
+}
+
+func hasInt(l []int, x int) bool {
+	for _, y := range l {
+		if y == x {
+			return true
+		}
+	}
+	return false
+}
+
 func classify(err error, panicked interface{}) []string {
+	// an error that a Nested resource's Close reports for a context inside it is a Close error of the outer run,
+	// whatever it wraps
+	var rest error
+	nestedErr := false
+	for _, e := range multierr.Errors(err) {
+		if strings.Contains(e.Error(), "error in nested archetype") {
+			nestedErr = true
+		} else {
+			rest = multierr.Append(rest, e)
+		}
+	}
+	out := classify1(rest, panicked)
+	if nestedErr {
+		has := false
+		for _, x := range out {
+			if x == "close" {
+				has = true
+			}
+		}
+		if !has {
+			out = append(out, "close")
+			sort.Strings(out)
+		}
+	}
+	return out
+}
+
+func classify1(err error, panicked interface{}) []string {
 	set := map[string]bool{}
 	if panicked != nil {
 		set["panic"] = true
@@ -483,13 +537,13 @@ func runCase(k kase) (res result) {
 			d.createdOrd = append(d.createdOrd, int(index.AsNumber()))
 			n := d.created[key]
 			d.mu.Unlock()
-			return d.newInst(fmt.Sprintf("im[%s]#%d", key, n), false, true)
+			return d.newInst(fmt.Sprintf("im[%s]#%d", key, n), hasInt(k.ImFail, int(index.AsNumber())), true)
 		}))
 	}
 	if k.HashMap > 0 {
 		hm := hashmap.New[distsys.ArchetypeResource]()
 		for i := 0; i < k.HashMap; i++ {
-			hm.Set(tla.MakeNumber(int32(i)), d.newInst(fmt.Sprintf("hm[%d]", i), false, true))
+			hm.Set(tla.MakeNumber(int32(i)), d.newInst(fmt.Sprintf("hm[%d]", i), hasInt(k.HmFail, i), true))
 		}
 		alias("hm", resources.NewHashMap(hm))
 	}
@@ -499,12 +553,12 @@ func runCase(k kase) (res result) {
 			for i := 0; i < k.Nested; i++ {
 				nm := fmt.Sprintf("N%d", i)
 				nw := d.newInst(fmt.Sprintf("ne[%d].nw", i), false, false)
-				ctxs = append(ctxs, distsys.NewMPCalContext(tla.MakeNumber(int32(100+i)), archetype(d, nm, true), plainHandle("nw", nw)))
+				ctxs = append(ctxs, distsys.NewMPCalContext(tla.MakeNumber(int32(100+i)), archetype(d, nm, true, endOf(k.NestedEnd, i)), plainHandle("nw", nw)))
 			}
 			return ctxs
 		}))
 	}
-	archA := archetype(d, A, false)
+	archA := archetype(d, A, false, "")
 	if k.PrePanic {
 		archA.RequiredRefParams = []string{"A.missing"}
 	}
@@ -519,6 +573,19 @@ func runCase(k kase) (res result) {
 				return
 			}
 			time.Sleep(100 * time.Microsecond)
+		}
+		// a nested context scripted to end on its own has ended (its cleanup has closed its resource) before the outer run starts
+		for i := 0; i < k.Nested; i++ {
+			if endOf(k.NestedEnd, i) == "" {
+				continue
+			}
+			for atomic.LoadInt32(&d.insts[fmt.Sprintf("ne[%d].nw", i)].closeCount) == 0 {
+				if time.Since(t0) > deadline {
+					res.Hang = "nested-early-end"
+					return
+				}
+				time.Sleep(100 * time.Microsecond)
+			}
 		}
 	}
 
